@@ -506,6 +506,10 @@ class Core(composites.Composite):
         # refuse an occupied location before anything is changed (the assembly used to be left
         # renumbered and in the child list, and the message looked up the wrong key: KeyError)
         targetLocator = spatialLocator or a.spatialLocator
+        if targetLocator is not None:
+            # compare on the core's own grid: a detached locator (an assembly that was removed and
+            # comes back) names the same cell but never equals the key of the present occupant
+            targetLocator = self.spatialGrid[tuple(targetLocator.indices)]
         if targetLocator is not None and targetLocator in self.childrenByLocator:
             raise ValueError(
                 "Cannot add {} because location {} is already filled by {}."
@@ -516,8 +520,6 @@ class Core(composites.Composite):
 
         # likewise refuse a location outside of the represented domain before anything is changed
         if targetLocator is not None:
-            # transfer spatialLocator to Core one
-            targetLocator = self.spatialGrid[tuple(targetLocator.indices)]
             if not self.spatialGrid.locatorInDomain(targetLocator, symmetryOverlap=True):
                 raise LookupError(
                     "Location `{}` outside of the represented domain: `{}`".format(
